@@ -22,6 +22,12 @@ UNITS_QUICK = r"/Simbody/src/(Force[^/]*|GeneralForceSubsystem|CableSpring|Cable
               r"CompliantContactSubsystem|HuntCrossley[^/]*|ElasticFoundationForce|SmoothSphereHalfSpaceForce|ExponentialSpringForce|Constraint[^/]*|Motion|MobilizedBody|SimbodyMatterSubsystemRep)\.cpp$"
 HDR = r"/Simbody/src/.*\.h$|/Simbody/include/"
 FS = "SimTK::GeneralForceSubsystemRep"
+# lazy Position-stage caches whose filler legitimately passes a velocity-level read: one named symbol each, with the reason
+LAZY_STATE_EXCEPTIONS = {
+    ("SimTK::CompliantContactSubsystemImpl::ensurePotentialEnergyCacheValid", "m_potEnergyCacheIx"):
+        "when the State is already at Velocity stage the potential energy is summed from ContactForce::getPotentialEnergy() of the force records, their position-only "
+        "component (the velocity enters only the dissipation part of a record); at Position stage it is recomputed with zero velocities",
+}
 GI = "SimTK::Force::GravityImpl"
 
 # callees whose reads are stage-parameterised and therefore cut from the transitive read summary
@@ -299,6 +305,61 @@ def stage(chk, P, S, SV):
                 chk.judge(okall, "STAGE", inst, fn.loc,
                           "cache %s (valid from %s) is computed from variable %s which invalidates only %s; writer %s does not invalidate the cache" %
                           (c.split("::")[-1], inv[S.cache[c]["dep"]], v.split("::")[-1], inv[S.var[v]["inv"]], culprit))
+    # continuous state: a LAZY cache entry (recomputation skipped while it is flagged valid; the flag falls only when its depends-on stage is
+    # invalidated) that depends on Position or earlier must not be computed from velocity-level quantities: after a change of u alone it would
+    # stay flagged valid and stale.  Decided per filler: no path from a velocity-level read to the call that marks the entry realized.
+    def touches(fn, e, c, what):
+        """call event e marks / tests cache c, directly or through an accessor-sized method of the same class"""
+        n = str(e.get("fn", ""))
+        if n.endswith("::" + what) and c in _fields_in(e["x"]):
+            return True
+        cid = e.get("fid")
+        for g in P.by_id.get(cid, []) if cid else []:
+            if g.cls == fn.cls and fn.cls and sum(1 for _ in g.calls()) <= 6:
+                if any(str(q.get("fn", "")).endswith("::" + what) and c in _fields_in(q["x"]) for _, _, q in g.calls()):
+                    return True
+        return False
+    nst = 0
+    for fid in sorted(cands):
+        fl = S.fills(fid)
+        if not fl:
+            continue
+        fn = P.by_id[fid][0]
+        for c in sorted(fl):
+            if c in MANUAL_CACHES or S.cache[c].get("kind") not in ("LazyCacheEntry", "CacheEntry"):
+                continue
+            lazy = any(touches(fn, e, c, "isCacheValueRealized") for _, _, e in fn.calls())
+            if not lazy:
+                continue
+            marks = [e for _, _, e in fn.calls() if touches(fn, e, c, "markCacheValueRealized")]
+            if not marks:
+                continue
+            nst += 1
+            inst = "%s:%s<-state" % (fid, c.split("::")[-1])
+            if S.cache[c]["dep"] >= SV["Velocity"]:
+                chk.ok("STAGE", inst, fn.loc, "lazy entry valid from %s: may read velocities" % inv[S.cache[c]["dep"]])
+                continue
+
+            def is_vel(q):
+                if q["k"] != "call":
+                    return False
+                if VEL.search(str(q.get("fn", ""))):
+                    return True
+                cid = q.get("fid")
+                return bool(cid) and cid != fid and cid in P.by_id and P.by_id[cid][0].cls == fn.cls and bool(fn.cls) and bool(S.vel_calls(cid))
+            bad = None
+            for b, i, e in fn.events(is_vel):
+                for m_ in marks:
+                    if fn.path_exists((b, i), lambda q, m_=m_: q is m_, lambda q: False, lift=0) is not None:
+                        bad = e
+            ex = LAZY_STATE_EXCEPTIONS.get((fn.name, c.split("::")[-1]))
+            if bad is not None and ex:
+                chk.ok("STAGE", inst + ":tabled", fn.loc, ex)
+                continue
+            chk.judge(bad is None, "STAGE", inst + ":no-velocity-level-read-before-it-is-marked-valid", fn.loc,
+                      "lazy cache %s depends on Stage::%s only, but its filler reads velocity-level quantities (%s, line %s) before marking it valid: after a change of u alone "
+                      "it stays flagged valid and stale" % (c.split("::")[-1], inv[S.cache[c]["dep"]], bad and str(bad.get("fn", "")).split("::")[-1], bad and bad.get("line")))
+    chk.shape(nst >= 8, "STAGE", "lazy-cache-fillers>=8", "", "%d lazy (ensure-idiom) cache fillers examined" % nst)
     chk.floor("STAGE", 25)
 
 
@@ -495,6 +556,10 @@ _F = "Simbody/src/ForceImpl.h"
 _G = "Simbody/src/Force_Gravity.cpp"
 _S = "Simbody/src/GeneralForceSubsystem.cpp"
 MUTATIONS = [
+    dict(name="seeded (sub-agent): Rod's lazy velocity cache declared to depend on Position only", arm=True, file="Simbody/src/Constraint_Rod.cpp",
+         old="        allocateLazyCacheEntry(state, Stage::Velocity, \n            new Value<VelocityCache>());", new="        allocateLazyCacheEntry(state, Stage::Position, \n            new Value<VelocityCache>());",
+         expect="RodImpl::ensureVelocityCacheRealized(const SimTK::State &)const:m_velCacheIx<-state"),
+
     dict(name="seeded (sub-agent): one instance-cache index list is no longer emptied before the partition is rebuilt", arm=True, file="Simbody/src/SimbodyMatterSubsystemRep.cpp",
          old="    ic.presUDot.clear();    ic.zeroUDot.clear();    ic.freeUDot.clear();", new="    ic.presUDot.clear();    ic.freeUDot.clear();", expect="REFILL:SimbodyMatterSubsystemRep::realizeSubsystemInstanceImpl:zeroUDot"),
     dict(name="LinearBushing parameters invalidate only Dynamics", file=_LB,
